@@ -48,6 +48,9 @@ func hostModuleAttrs() map[string]ugo.Object {
 	hostStates = append(hostStates[:0], st) // one live module map per run
 	return map[string]ugo.Object{
 		"state": st,
+		"sync":  &ugo.SyncMap{Value: ugo.Map{"a": ugo.Int(1)}},
+		"esync": &ugo.SyncMap{Value: ugo.Map{}},
+		"emap":  ugo.Map{},
 		"":      ugo.Int(99), // an attribute with the empty name
 		"errA":  &ugo.Error{Name: "NotFound", Message: "no such thing"},
 		"errB":  &ugo.Error{Name: "Timeout", Message: "too slow"},
@@ -105,6 +108,19 @@ func newModuleMap(src []srcModule) *ugo.ModuleMap {
 	mm.AddBuiltinModule("json", json.Module)
 	mm.AddBuiltinModule("time", ugotime.Module)
 	mm.AddBuiltinModule("host", hostModuleAttrs())
+	// a module registered under another name than the one its attributes declare
+	mm.AddBuiltinModule("host2", map[string]ugo.Object{
+		ugo.AttrModuleName: ugo.String("host"),
+		"double": &ugo.Function{Name: "double", Value: func(args ...ugo.Object) (ugo.Object, error) {
+			if len(args) == 1 {
+				if v, ok := args[0].(ugo.Int); ok {
+					return v * 3, nil // host2's double is not host's
+				}
+			}
+			return ugo.Undefined, nil
+		}},
+		"str": ugo.String("this is host2"),
+	})
 	for _, m := range src {
 		mm.AddSourceModule(m.Name, []byte(m.Src))
 	}
